@@ -80,3 +80,46 @@ package db
 //@   loop#1 invariant -1 <= i && i < len(prefix) && limit == nil
 //@   loop#1 invariant forall j int :: i < j && j < len(prefix) ==> prefix[j] == 0xff
 //@   loop#1 decreases i + 1
+
+// D5 (C11/C18): Update commits exactly once when f succeeds and not at all when f or BeginTx fails; every error is
+// returned.  commits() is the ghost log of committed transactions; the callback itself must not commit.
+//@ define commits() = gmap("commits")
+//@ define rollbacks() = gmap("rollbacks")
+
+//@ func DBTransaction.Commit
+//@   props C11 C18
+//@   modifies commits()
+//@   ensures len(commits()) == old(len(commits())) + 1
+
+//@ func DBTransaction.Rollback
+//@   props C11 C18
+//@   modifies rollbacks()
+//@   ensures len(rollbacks()) == old(len(rollbacks())) + 1
+
+//@ func ReadTransaction.Rollback
+//@   props C11 C18
+//@   modifies rollbacks()
+//@   ensures len(rollbacks()) == old(len(rollbacks())) + 1
+
+//@ func DB.BeginTx
+//@   props C11 C18
+//@   ensures (err == nil) == (result != nil)
+
+//@ func DB.BeginReadTx
+//@   props C11 C18
+//@   ensures (err == nil) == (result != nil)
+
+//@ func Update
+//@   props C11 C18 C19
+//@   requires db != nil
+//@   modifies *
+//@   callback f preserves len(commits())
+//@   ensures result == nil ==> len(commits()) == old(len(commits())) + 1
+//@   ensures len(commits()) != old(len(commits())) + 1 ==> len(commits()) == old(len(commits())) && result != nil
+
+//@ func View
+//@   props C11 C18 C19
+//@   requires db != nil
+//@   modifies *
+//@   callback f preserves len(commits())
+//@   ensures len(commits()) == old(len(commits()))
